@@ -86,6 +86,9 @@ class World:
         return (id(ob), name) not in self.denied_attrs
 
     def item_allowed(self, value):
+        if isinstance(value, tuple) and len(value) == 2:
+            # a (key, value) pair as dtml-in unpacks it: refused when its value is
+            value = value[1]
         if id(value) in self.denied_items:
             return False
         if isinstance(value, (str, int, float)) and not isinstance(value, bool):
@@ -178,6 +181,66 @@ class PSeq:
         return len(self._d)
 
 
+class PIter:
+    """Iterable only (__iter__, neither subscription nor len)."""
+
+    def __init__(self, data):
+        self._d = list(data)
+
+    def __iter__(self):
+        return iter(list(self._d))
+
+
+class PGet:
+    """Old sequence protocol only: __getitem__ ending in IndexError, no __len__."""
+
+    def __init__(self, data):
+        self._d = list(data)
+
+    def __getitem__(self, i):
+        return self._d[i]
+
+
+# kinds of things a dtml-in can run over besides a subscriptable sequence.  'pairs*' hold
+# (key, item) 2-tuples, which dtml-in unpacks; the guard is handed the pair.
+SRC_KINDS = ('gen', 'iter', 'map', 'dictkeys', 'keysview', 'valuesview', 'iterable', 'getitem',
+             'pairs', 'pairsgen', 'itemsview')
+PAIR_KINDS = ('pairs', 'pairsgen', 'itemsview')
+SEQ_BASES = ('seq', 'dseq', 'mseq', 'dmseq', 'wseq', 'dwseq')
+TREE_KINDS = ('tuple', 'pseq')
+
+
+def source_of(kind, items):
+    """`items` presented as an iterable of the kind (built anew for every render)."""
+    items = list(items)
+    if kind == 'gen':
+        return (x for x in items)
+    if kind == 'iter':
+        return iter(items)
+    if kind == 'map':
+        return map(lambda x: x, items)
+    if kind == 'dictkeys':
+        return dict.fromkeys(items)
+    if kind == 'keysview':
+        return dict.fromkeys(items).keys()
+    if kind == 'valuesview':
+        return dict(enumerate(items)).values()
+    if kind == 'iterable':
+        return PIter(items)
+    if kind == 'getitem':
+        return PGet(items)
+    pairs = [('key%d' % j, it) for j, it in enumerate(items)]
+    if kind == 'pairs':
+        # (a plain list of tuples is handed out by AccessControl without validation: both are
+        # container types it trusts; an unknown sequence type is validated item by item)
+        return PSeq(pairs)
+    if kind == 'pairsgen':
+        return (x for x in pairs)
+    if kind == 'itemsview':
+        return dict(pairs).items()
+    raise ValueError(kind)
+
+
 class PMap:
     """Mapping whose type AccessControl does not know (so items are validated by the policy)."""
 
@@ -253,6 +316,8 @@ def hook_getitem(self, ob, index):
     ok = w.item_allowed(v)
     w.guard_log.append(('hook-item', type(ob).__name__, index if isinstance(index, int) else str(index), ok))
     w.decided_items.add(id(v))
+    if isinstance(v, tuple) and len(v) == 2:
+        w.decided_items.add(id(v[1]))
     if not ok:
         w.refused += 1
         raise Unauthorized('item %s' % (index,))
@@ -449,6 +514,16 @@ class Graph:
 
         def want(name):
             return need is None or name in need
+
+        def wantp(base):
+            """`base` itself or one of its iterable presentations base_<kind>."""
+            return need is None or base in need or any(x.startswith(base + '_') for x in need)
+
+        def present(base, items):
+            """ns[base_<kind>] for every iterable kind the template names."""
+            for kind in SRC_KINDS:
+                if need is not None and ('%s_%s' % (base, kind)) in need:
+                    ns['%s_%s' % (base, kind)] = source_of(kind, items)
         if want('o'):
             ns['o'] = self.mkobj('o')
             d = pdict(ns['o'])
@@ -456,20 +531,45 @@ class Graph:
                 d.pop(aname('z', kind))
         if want('oz'):
             ns['oz'] = self.mkobj('oz', ordinal=1)
-        if want('seq') or want('pseq') or want('tseq'):
+        if wantp('seq') or want('pseq') or want('tseq'):
             self.items = [self.mkobj('i%d' % j, j, depth=1) for j in range(n)]
             ns['seq'] = self.container(self.items)
             ns['pseq'] = PSeq(self.items)
             ns['tseq'] = [('key%d' % j, it) for j, it in enumerate(self.items)]
-        if want('dseq') or want('dpseq'):
+            present('seq', self.items)
+        if wantp('dseq') or want('dpseq'):
             self.ditems = [self.mkobj('d%d' % j, j, tainted=(j in deny), depth=1) for j in range(n)]
             for j in deny:
                 w.denied_items.add(id(self.ditems[j]))
             ns['dseq'] = self.container(self.ditems)
             ns['dpseq'] = PSeq(self.ditems)
+            present('dseq', self.ditems)
+        # items of basic type (strings and numbers: dtml-in does not wrap them, the body reads
+        # sequence-item).  The third assignment is a third set of distinct values here, not the falsy
+        # one: equal items would merge when they are the keys of a dict.  The container is never a
+        # plain list / tuple: AccessControl hands str/int items of those out without asking the policy.
+        for flavour in ('w', 'dw'):
+            if not wantp(flavour + 'seq'):
+                continue
+            ws = []
+            for j in range(n):
+                refused = flavour == 'dw' and j in deny
+                if j % 2 == 0:
+                    v = self.sval('%s%d' % (flavour, j), 'item', refused)
+                    if refused and self.assign == 'c':
+                        v = '%s-c-%s%d-item' % (SECRET, flavour, j)
+                else:
+                    v = self.nval(j, refused)
+                    if refused and self.assign == 'c':
+                        v = 3000003 + 13 * j
+                if refused:
+                    w.denied_scalars.append(v)
+                ws.append(v)
+            ns[flavour + 'seq'] = PSeq(ws)
+            present(flavour + 'seq', ws)
         # mapping-mode sequences
         for flavour in ('m', 'dm'):
-            if not want(flavour + 'seq'):
+            if not wantp(flavour + 'seq'):
                 continue
             ms = []
             for j in range(n):
@@ -488,6 +588,7 @@ class Graph:
                 w.keep.append(m)
                 ms.append(m)
             ns[flavour + 'seq'] = ms
+            present(flavour + 'seq', ms)
         # keyed access in expressions
         if want('mp'):
             mpd = {'key_pub': self.sval('mp', 'key_pub', False)}
@@ -523,6 +624,12 @@ class Graph:
         width = self.p['width']
         deny = set(deny_indices(self.p.get('pat', 'single'), width, self.p['p']))
 
+        def shapes(d, name, kids):
+            """name_tuple / name_pseq: the same children handed out as a tuple / as a sequence of
+            a type nobody knows."""
+            d[name + '_tuple'] = (lambda kids=kids: tuple(kids))
+            d[name + '_pseq'] = (lambda kids=kids: PSeq(kids))
+
         def node(tag, j, level, tainted=False, mixkid=False):
             o = self.mkobj(tag, j, tainted=tainted, depth=1)
             d = pdict(o)
@@ -530,6 +637,8 @@ class Graph:
                 for kind in ALLKINDS:
                     d[aname('b', kind)] = (lambda: [])
                 d['b_mix'] = (lambda: [])
+                shapes(d, 'b_mix', [])
+                shapes(d, 'b_pub', [])
                 return o
             if mixkid:
                 # a child reached through b_mix: expandable; its own children (leaves) carry the
@@ -540,6 +649,8 @@ class Graph:
                 for kind in ALLKINDS:
                     d[aname('b', kind)] = (lambda: [])
                 d['b_mix'] = (lambda leaves=leaves: list(leaves))
+                shapes(d, 'b_mix', leaves)
+                shapes(d, 'b_pub', [])
                 return o
             for kind in ALLKINDS:
                 sec = tainted or self.secret_kind(kind, d['=refuse_alt'])
@@ -550,6 +661,8 @@ class Graph:
                     kids = [node('%s.%s%d' % (tag, aname('b', kind), i), i, 2, sec)
                             for i in range(2)]
                 d[aname('b', kind)] = (lambda kids=kids: list(kids))
+                if kind == 'pub':
+                    shapes(d, 'b_pub', kids)
                 if self.cfg != 'none' and (kind == 'den' or (kind == 'alt' and d['=refuse_alt'])):
                     w.denied_attrs.add((id(o), aname('b', kind)))
             mix = [node('%s.mix%d' % (tag, i), i, 2, tainted=(i in deny), mixkid=True)
@@ -557,6 +670,7 @@ class Graph:
             for i in deny:
                 w.denied_items.add(id(mix[i]))
             d['b_mix'] = (lambda mix=mix: list(mix))
+            shapes(d, 'b_mix', mix)
             return o
         return node('root', 0, 0)
 
